@@ -280,6 +280,69 @@ static void cv_timed_and_untimed()
     pmc_outcome("b_first=%d b_notified=%d", b_first, x.b_notified);
 }
 
+// a stop-token wait that is not alone on its condition variable: another waiter (a plain predicate wait, or
+// a stop-token wait on a different stop_source) is queued in front of it; stop is requested for the second
+// one only - it must return, the first one must keep waiting until it is released separately
+static void cv_stop_two_waiters()
+{
+    int first_kind = pmc_choose(2, 0);    // 0: plain wait(pred), 1: stop-token wait on another source
+    static State s;
+    s = State{};
+    g_st = &s;
+    g_W = 1;
+    pika::condition_variable_any cv;
+    pika::mutex m;
+    pika::stop_source src, other;
+    pmc_watch(&cv, sizeof cv, "cv");
+    pmc_watch(cv.data_.get(), sizeof(*cv.data_.get()), "cv_data");
+    pmc_watch(src.state_.get(), sizeof(*src.state_.get()), "stop_state");
+    static int first_waiting, first_returned, second_waiting, release_first;
+    first_waiting = first_returned = second_waiting = release_first = 0;
+    pmc_on_stuck([] { if (g_st->t_notified && g_st->returned < 1) pmc_fail("lost-notification", "stop was requested but the stop-token wait did not return (another waiter is queued in front of it on the same condition variable)"); });
+    rt::start();
+    rt::spawn([&, first_kind] {
+        rt::watch_self("first");
+        std::unique_lock<pika::mutex> l(m);
+        first_waiting = 1;
+        if (first_kind == 0) cv.wait(l, [&] { return release_first != 0; });
+        else cv.wait(l, other.get_token(), [&] { return release_first != 0; });
+        first_returned = 1;
+        ++s.finished;
+    });
+    rt::spawn([&] {
+        rt::watch_self("waiter");
+        int guard = 0;
+        while (!first_waiting && ++guard < 300) pika::this_thread::yield();
+        std::unique_lock<pika::mutex> l(m);    // acquired only once the first waiter has released it inside wait: queued behind it
+        second_waiting = 1;
+        bool r = cv.wait(l, src.get_token(), [&] { return false; });
+        PMC_ASSERT(!r && src.stop_requested(), "stop-wait-early", "stop-token wait returned %d, stop requested %d", (int) r, (int) src.stop_requested());
+        ++s.returned;
+        pmc_progress();
+        l.unlock();
+        ++s.finished;
+    });
+    rt::spawn([&] {
+        rt::watch_self("stopper");
+        for (;;)
+        {
+            { std::unique_lock<pika::mutex> l(m); if (first_waiting && second_waiting) break; }
+            pika::this_thread::suspend(pika::threads::detail::thread_schedule_state::pending, "C07 stopper");
+        }
+        src.request_stop();
+        s.t_notified = pmc_now();
+        pmc_progress();
+        // only once the stopped waiter is back is the first one released (by the flag + a notification)
+        while (s.returned < 1) pika::this_thread::suspend(pika::threads::detail::thread_schedule_state::pending, "C07 stopper");
+        { std::unique_lock<pika::mutex> l(m); release_first = 1; }
+        cv.notify_all();
+        ++s.finished;
+    });
+    rt::stop();
+    PMC_ASSERT(s.finished == 3 && first_returned, "task-lost", "%d of 3 tasks finished (first waiter returned %d)", s.finished, first_returned);
+    pmc_outcome("first_kind=%d", first_kind);
+}
+
 int main(int argc, char** argv)
 {
     static const char* focus = "F-addr: condition_variable handle + heap condition_variable_data (internal spinlock, queue, refcount) + user lock + each task's thread_data";
@@ -291,6 +354,7 @@ int main(int argc, char** argv)
         {"cva_spin_2w", cv_tasks<cva_t, pika::concurrency::detail::spinlock, 2>, 1, 2, 0.15, 0.15, 1, "condition_variable_any with a spinlock as user lock", nullptr, nullptr},
         {"cv_timed_and_untimed", cv_timed_and_untimed<cv_t, pika::mutex>, 2, 3, 0.15, 0.1, 1, "one notify_one, an untimed and a timed (no predicate) waiter", nullptr, nullptr},
         {"cv_stop", cv_stop_token<0>, 1, 2, 0.1, 0.1, 1, "stop-token wait: cv, cv_data, user lock, stop_state", nullptr, nullptr},
+        {"cv_stop_two_waiters", cv_stop_two_waiters, 1, 2, 0.1, 0.1, 1, "stop-token wait queued behind another waiter of the same condition variable", nullptr, nullptr},
         {"cv_stop_timed", cv_stop_token<1>, 1, 2, 0.1, 0.1, 1, "stop-token wait_for", nullptr, nullptr},
         {"cva_os_2w", cv_os<2>, 2, 3, 0.15, 0.15, 1, "condition_variable_any + std::mutex on plain OS threads; all pthread operations are points", nullptr, nullptr},
     };
